@@ -85,6 +85,10 @@ class ChargingBase(VehicleState):
         elif not base.membership.grant_access_to_membership(vehicle.membership):
             msg = f"vehicle doesn't have access to base; context: {context}"
             return SimulationStateError(msg), None
+        elif not station.membership.grant_access_to_membership(vehicle.membership):
+            # the plug belongs to the station attached to the base, which has a membership of its own
+            msg = f"vehicle doesn't have access to station {station.id} at base; context: {context}"
+            return SimulationStateError(msg), None
         elif base.geoid != vehicle.geoid:
             log.warning(
                 f"ChargingBase.enter(): vehicle {vehicle.id} not at same location as {base.id}"
